@@ -5,7 +5,7 @@ EXTENDS ExprEnv, TLC, Json, IOUtils, SequencesExt
 CONSTANT Deep   \* TRUE: depth-2 trees over four leaves (thorough), FALSE: over three (quick)
 
 Cases == NumCases(SetA) \cup NumCases(SetB) \cup NumCases(SetC)
-         \cup NumCases(SetD(IF Deep THEN Small4 ELSE Small3))
+         \cup NumCases(SetD(IF Deep THEN Small4 ELSE Small3)) \cup NumCases(SetE)
          \cup NarrowCases(SetA) \cup NarrowCases({t \in SetB : t.op \in {"+", "-", "*"}})
          \cup StrCases
 
